@@ -191,7 +191,7 @@ func streamEngineLife(t *testing.T, o *Out) {
 		base := runtime.NumGoroutine()
 		ctx, cancel := context.WithCancel(context.Background())
 		var calls int64
-		fd := &faultDeps{RegistryDefault: env.reg, calls: &calls, failAt: int64(failAt), persistent: persistent}
+		fd := &faultDeps{RegistryDefault: env.reg, calls: &calls, failAt: int64(failAt), persistent: persistent, pageSize: c.PageSize}
 		ld := &lifeDeps{faultDeps: fd, cancelAt: int64(cancelAt), cancel: cancel, delayUS: r.Intn(3) * 50}
 		eng := check.NewEngine(ld)
 		if pre {
